@@ -596,6 +596,43 @@ def dict_keys(flow: Flow, expr):
             for kk in ks:
                 keys.add(kk)
                 pairs.append((kk, v))
+    # a dictionary built by successive stores on the local that holds it: d = {}; d[k1] = v1; d.update({k2: v2}) / d.update(k3=v3)
+    names, work = set(), [expr]
+    while work:
+        e = work.pop()
+        if isinstance(e, ast.Name) and e.id not in names and e.id in flow.defs:
+            names.add(e.id)
+            work += [d for d in flow.defs[e.id] if isinstance(d, ast.Name)]
+    for n in ast.walk(flow.node) if names else ():
+        if isinstance(n, (ast.Assign, ast.AnnAssign)) and n.value is not None:
+            for t in (n.targets if isinstance(n, ast.Assign) else [n.target]):
+                if isinstance(t, ast.Subscript) and isinstance(t.value, ast.Name) and t.value.id in names:
+                    ks = flow.consts(t.slice)
+                    if not ks:
+                        return None
+                    for kk in ks:
+                        keys.add(kk)
+                        pairs.append((kk, n.value))
+        elif isinstance(n, ast.Call) and isinstance(n.func, ast.Attribute) and n.func.attr in ("update", "setdefault") and isinstance(n.func.value, ast.Name) and n.func.value.id in names:
+            if n.func.attr == "setdefault" and len(n.args) == 2:
+                ks = flow.consts(n.args[0])
+                if not ks:
+                    return None
+                for kk in ks:
+                    keys.add(kk)
+                    pairs.append((kk, n.args[1]))
+                continue
+            for k in n.keywords:
+                if k.arg is None:
+                    return None
+                keys.add(k.arg)
+                pairs.append((k.arg, k.value))
+            for a in n.args:
+                got = dict_keys(flow, a) if not (isinstance(a, ast.Name) and a.id in names) else (set(), [])
+                if got is None:
+                    return None
+                keys |= got[0]
+                pairs += got[1]
     return keys, pairs
 
 
